@@ -6,7 +6,7 @@ From Coq Require Import ZifyBool.
 
 (* ---------- pins: the scanners of Model/Lexer.v are written for exactly these pattern sources *)
 Lemma pin_matcher_sources : matcher_sources =
-  [ bs_ "--.*"; bs_ "//.*"; bs_ "[ \t]+"; bs_ "\r\n"; bs_ "\n"; bs_ "\r";
+  [ bs_ "--[^\r\n]*"; bs_ "//[^\r\n]*"; bs_ "[ \t]+"; bs_ "\r\n"; bs_ "\n"; bs_ "\r";
     bs_ "0[xX][0-9a-fA-F]+(\.[0-9a-fA-F]+)?"; bs_ "0[xX]\.[0-9a-fA-F]+";
     bs_ "0[bB][01]+(\.[01]+)?"; bs_ "0[bB]\.[01]+";
     bs_ "[0-9]+(\.(?!\.)[0-9]*)?([eE]-?[0-9]+)?"; bs_ "\.[0-9]+([eE]-?[0-9]+)?";
@@ -14,10 +14,10 @@ Lemma pin_matcher_sources : matcher_sources =
     bs_ "[a-zA-Z_\x80-\xff][a-zA-Z0-9_\x80-\xff]*"; bs_ "\?" ].
 Proof. reflexivity. Qed.
 
-(* bytes literals of the re.* calls inside Lexer._process_token: \d{1,3}, the two halves of the long
+(* bytes literals of the re.* calls inside Lexer._process_token: \d{1,3}, the hex escape, the two halves of the long
    string closer, and the long-bracket opener (tested, then matched with a group) *)
 Lemma pin_process_token_regexes : process_token_regexes =
-  [ bs_ "\d{1,3}"; bs_ "\]"; bs_ "\]"; bs_ "\[=*\["; bs_ "\[(=*)\[" ].
+  [ bs_ "\d{1,3}"; bs_ "x[0-9a-fA-F]{2}"; bs_ "\]"; bs_ "\]"; bs_ "\[=*\["; bs_ "\[(=*)\[" ].
 Proof. reflexivity. Qed.
 
 (* the matcher ids appear in the table in the order the model's documentation assumes nothing about:
@@ -175,7 +175,7 @@ Proof.
   { clear. induction p as [|a p IHp]; intros [|b q]; cbn; try reflexivity.
     destruct (a =? b); cbn; [apply IHp | reflexivity]. }
   rewrite (E (x0 :: x') s). destruct (drop_prefix (x0 :: x') s) eqn:D.
-  - reflexivity.
+  - cbn [drop_prefix] in D |- *. rewrite ?D. reflexivity.
   - apply IH. exact Hl.
 Qed.
 
@@ -262,7 +262,7 @@ Proof.
     apply hd_is_spec in Hd. destruct (hd_is 46 (tl r)); [intros H; inversion H; reflexivity|].
     destruct (take_while m_digit (tl r)) as [d r'] eqn:E. intros H; inversion H; subst.
     apply take_while_split in E. rewrite Hd at 1. rewrite E. reflexivity. }
-  destruct (if hd_is 46 r then _ else _) as [f r2] eqn:E2. apply Hf in E2.
+  destruct (if hd_is 46 r then _ else _) as [f r2] eqn:E2. specialize (Hf f r2 eq_refl). rename Hf into E2'.
   destruct (opt_exp r2) as [e r3] eqn:E3. apply opt_exp_split in E3.
   intros H; inversion H; subst. rewrite <- !app_assoc. reflexivity.
 Qed.
@@ -294,11 +294,11 @@ Qed.
 Lemma scan_keyword_split kw s a b : scan_keyword kw s = Some (a, b) -> s = a ++ b.
 Proof.
   unfold scan_keyword. destruct kw as [|k0 kw']; [discriminate|].
-  destruct (m_word k0 && m_word (last (k0 :: kw') 0)); [|discriminate].
+  destruct (m_word k0); [|discriminate].
   destruct (drop_prefix (k0 :: kw') s) as [r|] eqn:E; [|discriminate]. apply drop_prefix_split in E.
   destruct r as [|c r'].
   - intros H; inversion H; subst. reflexivity.
-  - destruct (m_word c); [discriminate|]. intros H; inversion H; subst. reflexivity.
+  - destruct (m_name_char c); [discriminate|]. intros H; inversion H; subst. reflexivity.
 Qed.
 
 Lemma scan_literal_split lit s a b : scan_literal lit s = Some (a, b) -> s = a ++ b.
@@ -310,12 +310,12 @@ Qed.
 
 Lemma comment_split c s a b :
   match drop_prefix [c; c] s with
-  | Some r => let '(a, b) := take_while m_not_nl r in Some (c :: c :: a, b)
+  | Some r => let '(a, b) := take_while m_not_eol r in Some (c :: c :: a, b)
   | None => None
   end = Some (a, b) -> s = a ++ b.
 Proof.
   destruct (drop_prefix [c; c] s) as [r|] eqn:E; [|discriminate]. apply drop_prefix_split in E.
-  destruct (take_while m_not_nl r) as [a1 b1] eqn:E2. apply take_while_split in E2.
+  destruct (take_while m_not_eol r) as [a1 b1] eqn:E2. apply take_while_split in E2.
   intros H; inversion H; subst. reflexivity.
 Qed.
 
@@ -379,38 +379,49 @@ Proof.
 Qed.
 
 (* the in-string loop: the consumed piece followed by the rest is the subject *)
-Definition sscan_piece (r : sscan) : list Z := match r with SClosed _ p _ => p | SOpen _ p => p end.
-Definition sscan_rest (r : sscan) : list Z := match r with SClosed _ _ rest => rest | SOpen _ _ => [] end.
-
-Lemma sscan_cons_ok pre r x : sscan_cons pre r = Ok x ->
-  exists y, r = Ok y /\ sscan_piece x = pre ++ sscan_piece y /\ sscan_rest x = sscan_rest y.
+Lemma take_upto_split n p : forall s a b, take_upto n p s = (a, b) -> s = a ++ b.
 Proof.
-  destruct r as [[a p rest|a p]|e]; cbn; intros H; inversion H; subst; eexists; (split; [reflexivity|]); cbn; split; reflexivity.
+  induction n as [|n IH]; intros s a b H; cbn in H.
+  - inversion H; reflexivity.
+  - destruct s as [|c r]; [inversion H; reflexivity|]. destruct (p c).
+    + destruct (take_upto n p r) as [a' b'] eqn:E. inversion H; subst. cbn. f_equal. apply IH. exact E.
+    + inversion H; subst. reflexivity.
 Qed.
 
-Lemma scan_string_split delim s : forall acc x, scan_string delim s acc = Ok x -> s = sscan_piece x ++ sscan_rest x.
+Lemma escape_step_split r v used rest : escape_step r = Ok (v, used, rest) -> r = used ++ rest.
 Proof.
-  induction s as [s IH] using (well_founded_induction (well_founded_ltof _ (@length Z))).
-  unfold ltof in IH. intros acc x H. destruct s as [|c r]; cbn [scan_string] in H.
-  - inversion H; subst. reflexivity.
-  - assert (Step : forall pre r' acc', (length r' < length (c :: r))%nat -> c :: r = pre ++ r' ->
-              sscan_cons pre (scan_string delim r' acc') = Ok x -> c :: r = sscan_piece x ++ sscan_rest x).
-    { intros pre r' acc' Hlt Heq Hx. apply sscan_cons_ok in Hx. destruct Hx as (y & Hy & Hp & Hr).
-      apply IH in Hy; [|exact Hlt]. rewrite Hp, Hr, <- app_assoc, <- Hy. exact Heq. }
-    destruct (c =? delim); [inversion H; subst; reflexivity|].
-    destruct (c =? 92).
-    + destruct r as [|d1 r1]; [inversion H; subst; reflexivity|].
-      destruct (m_digit d1).
-      * destruct r1 as [|d2 r2]; [apply (Step [c; d1] [] _) in H; [exact H | cbn; lia | reflexivity]|].
-        destruct (m_digit d2).
-        -- destruct r2 as [|d3 r3]; [apply (Step [c; d1; d2] [] _) in H; [exact H | cbn; lia | reflexivity]|].
-           destruct (m_digit d3).
-           ++ destruct (byte_of_digits [d1; d2; d3] <? 256); [|discriminate].
-              apply (Step [c; d1; d2; d3] r3 _) in H; [exact H | cbn; lia | reflexivity].
-           ++ apply (Step [c; d1; d2] (d3 :: r3) _) in H; [exact H | cbn; lia | reflexivity].
-        -- apply (Step [c; d1] (d2 :: r2) _) in H; [exact H | cbn; lia | reflexivity].
-      * destruct (lookup_bytes string_escapes [d1]).
-        -- apply (Step [c; d1] r1 _) in H; [exact H | cbn; lia | reflexivity].
-        -- apply (Step [c] (d1 :: r1) _) in H; [exact H | cbn; lia | reflexivity].
-    + apply (Step [c] r _) in H; [exact H | cbn; lia | reflexivity].
+  unfold escape_step. destruct r as [|d1 r1]; [intros H; inversion H; reflexivity|].
+  destruct (m_digit d1).
+  - destruct (take_upto 3 m_digit (d1 :: r1)) as [ds rs] eqn:E. apply take_upto_split in E.
+    destruct (byte_of_digits ds <? 256); [|discriminate]. intros H; inversion H; subst. exact E.
+  - destruct r1 as [|h1 [|h2 r3]].
+    + destruct (lookup_bytes string_escapes [d1]); intros H; inversion H; subst; reflexivity.
+    + destruct ((d1 =? 13) && (h1 =? 10)) eqn:C.
+      * apply andb_true_iff in C. destruct C as [C1 C2]. apply Z.eqb_eq in C1, C2. subst.
+        intros H; inversion H; subst; reflexivity.
+      * destruct (lookup_bytes string_escapes [d1]); intros H; inversion H; subst; reflexivity.
+    + destruct ((d1 =? 120) && m_hex h1 && m_hex h2); [intros H; inversion H; subst; reflexivity|].
+      destruct ((d1 =? 13) && (h1 =? 10)) eqn:C.
+      * apply andb_true_iff in C. destruct C as [C1 C2]. apply Z.eqb_eq in C1, C2. subst.
+        intros H; inversion H; subst; reflexivity.
+      * destruct (lookup_bytes string_escapes [d1]); intros H; inversion H; subst; reflexivity.
+Qed.
+
+Definition sscan_piece_rev (r : sscan) : list Z := match r with SClosed _ p _ => p | SOpen _ p => p end.
+Definition sscan_rest (r : sscan) : list Z := match r with SClosed _ _ rest => rest | SOpen _ _ => [] end.
+
+Lemma scan_string_split delim fuel : forall s acc pc x, scan_string fuel delim s acc pc = Ok x ->
+  rev pc ++ s = rev (sscan_piece_rev x) ++ sscan_rest x.
+Proof.
+  induction fuel as [|f IH]; intros s acc pc x H; destruct s as [|c r]; cbn [scan_string] in H.
+  - inversion H; subst. cbn. reflexivity.
+  - discriminate.
+  - inversion H; subst. cbn. reflexivity.
+  - destruct (c =? delim).
+    + inversion H; subst. cbn. rewrite <- app_assoc. reflexivity.
+    + destruct (c =? 92).
+      * destruct (escape_step r) as [[[v used] rest]|e] eqn:E; [|discriminate].
+        apply escape_step_split in E. apply IH in H. rewrite <- H.
+        rewrite rev_append_rev, rev_app_distr, rev_involutive. cbn [rev]. rewrite E, <- !app_assoc. reflexivity.
+      * apply IH in H. rewrite <- H. cbn [rev]. rewrite <- app_assoc. reflexivity.
 Qed.
